@@ -47,11 +47,38 @@ def gen_dataset(rng, kind, small=False):
     return spec
 
 
+FOREIGN = ["test.parquet", "multi_rgs_pyarrow", "evo", "spark-date-empty-rg.parq", "nested1.parquet", "map_array.parq",
+           "nation.impala.parquet", "test-timezone.parquet"]
+
+
+def foreign_dataset(name):
+    """spec of a test-data file: columns, row groups, sample values of its numeric columns (for filters)"""
+    from fastparquet import ParquetFile
+    path = conc.build_dataset({"kind": "file", "name": name}, None)
+    pf = ParquetFile(path)
+    df = pf.to_pandas()
+    numeric = {}
+    for c in pf.columns:
+        if str(df[c].dtype) in ("int32", "int64", "float64", "float32") and len(df):
+            vals = sorted(set(float(x) if "float" in str(df[c].dtype) else int(x) for x in df[c].dropna().tolist()))
+            if vals and all(v == v for v in vals):
+                numeric[c] = [vals[0], vals[len(vals) // 2], vals[-1]]
+    return {"kind": "file", "name": name, "n": int(len(df)), "cols": [str(c) for c in pf.columns], "cats": list(pf.cats),
+            "nrg": len(pf.row_groups), "numeric": numeric}
+
+
 def n_row_groups(spec):
+    if "nrg" in spec:
+        return max(1, spec["nrg"])
     return len(spec["offsets"]) * (spec.get("nparts", 1) if spec["kind"] == "hive" else 1)
 
 
 def gen_filter1(rng, spec):
+    if spec["kind"] == "file":
+        col = rng.choice(sorted(spec["numeric"]))
+        op = rng.choice(["==", ">", ">=", "<", "<=", "!=", "in", "not in"])
+        v = lambda: rng.choice(spec["numeric"][col]) + rng.choice([0, 0, 1, -1])
+        return [col, op, [v() for _ in range(2)]] if op in ("in", "not in") else [col, op, v()]
     cols = [c for c in spec["cols"] if c in ("i", "f", "s", "t", "o")] + (["p"] if spec["kind"] == "hive" else [])
     col = rng.choice(cols)
     n = spec["n"]
@@ -90,14 +117,14 @@ KINDS = ["to_pandas"] * 4 + ["slice"] * 2 + ["index", "slice_only", "iter", "hea
 def gen_op(rng, spec, kind=None):
     kind = kind or rng.choice(KINDS)
     op = {"op": kind}
-    cols = list(spec["cols"]) + (["p"] if spec["kind"] == "hive" else [])
+    cols = list(spec["cols"]) + (["p"] if spec["kind"] == "hive" else []) + list(spec.get("cats", []))
     nrg = n_row_groups(spec)
     if kind in ("to_pandas", "slice", "index", "iter", "head", "pickle"):
         if rng.random() < 0.5:
             op["columns"] = sorted(rng.sample(cols, rng.randint(1, len(cols))))
-        if rng.random() < 0.5:
+        if rng.random() < 0.5 and (spec["kind"] != "file" or spec["numeric"]):
             op["filters"] = gen_filters(rng, spec)
-        if "c" in spec["cols"] and rng.random() < 0.4 and ("columns" not in op or "c" in op["columns"]):
+        if "c" in spec["cols"] and spec["kind"] != "file" and rng.random() < 0.4 and ("columns" not in op or "c" in op["columns"]):
             op["categories"] = rng.choice([["c"], {"c": 3}, []])
         if rng.random() < 0.15:
             op["index"] = False
@@ -109,7 +136,7 @@ def gen_op(rng, spec, kind=None):
         op["i"] = rng.randrange(-nrg, nrg)
     if kind == "head":
         op["n"] = rng.choice([1, 5, 30, spec["n"] + 5])
-    if kind == "count" and rng.random() < 0.7:
+    if kind == "count" and rng.random() < 0.7 and (spec["kind"] != "file" or spec["numeric"]):
         op["filters"] = gen_filters(rng, spec)
     return op
 
@@ -188,6 +215,12 @@ def run(ctx):
         os.makedirs(root)
         path = conc.build_dataset(spec, root)
         datasets.append((spec, path, Solo(path)))
+    # foreign files of the repository's test-data: no pandas metadata / pyarrow metadata / nested schemas / empty row groups
+    names = [FOREIGN[(ctx.seed + j) % len(FOREIGN)] for j in range(1)] if quick else FOREIGN
+    for name in names:
+        spec = foreign_dataset(name)
+        datasets.append((spec, conc.build_dataset(spec, None), Solo(conc.build_dataset(spec, None))))
+        ctx.count("foreign", name)
 
     import time
     tm = ctx.extra.setdefault("phase_seconds", {})
@@ -245,6 +278,23 @@ def run_corpus(ctx, scratch):
     ctx.extra["corpus_cases"] = n
 
 
+def fixed_ops(spec):
+    if spec["kind"] != "file":
+        ops = [dict(o) for o in FIXED_OPS]
+        if "c" in spec["cols"]:
+            ops.append({"op": "to_pandas", "categories": ["c"]})
+            ops.append({"op": "to_pandas", "categories": {"c": 3}, "columns": ["c", "i"]})
+        return ops
+    ops = [{"op": "to_pandas"}, {"op": "to_pandas", "columns": spec["cols"][:2], "index": False}, {"op": "to_pandas", "columns": spec["cols"][-1:]},
+           {"op": "slice", "i": 0, "j": 1}, {"op": "slice_only", "i": 1, "j": None}, {"op": "index", "i": -1}, {"op": "iter"},
+           {"op": "head", "n": 3}, {"op": "statistics"}, {"op": "count"}, {"op": "columns"}, {"op": "pickle"}]
+    for c in sorted(spec["numeric"])[:2]:
+        ops[2] = {"op": "to_pandas", "filters": [[c, ">=", spec["numeric"][c][1]]]}
+        ops[9] = {"op": "count", "filters": [[c, "<", spec["numeric"][c][1]]]}
+        ops[6] = {"op": "iter", "filters": [[c, "!=", spec["numeric"][c][0]]]}
+    return ops
+
+
 FIXED_OPS = [
     {"op": "to_pandas"},
     {"op": "to_pandas", "columns": ["i", "s"], "filters": [["i", ">", 30]]},
@@ -285,10 +335,7 @@ def footprint_premise(ctx, pq, datasets, rng, quick):
     jobs, owner = [], []
     sels = {}
     for di, (spec, path, solo) in enumerate(datasets):
-        ops = [dict(o) for o in FIXED_OPS]
-        if "c" in spec["cols"]:
-            ops.append({"op": "to_pandas", "categories": ["c"]})
-            ops.append({"op": "to_pandas", "categories": {"c": 3}, "columns": ["c", "i"]})
+        ops = fixed_ops(spec)
         ops += [gen_op(rng, spec) for _ in range(2 if quick else 10)]
         for i in range(0, len(ops), 3):
             jobs.append((path, "fresh", ops[i:i + 3]))
@@ -429,9 +476,7 @@ def forced_search(ctx, datasets, rng, quick):
     budget = 60 if quick else 600
     per_ds = budget // len(datasets)
     for spec, path, solo in datasets:
-        pool = [dict(o) for o in FIXED_OPS] + [gen_op(rng, spec) for _ in range(6 if quick else 30)]
-        if "c" in spec["cols"]:
-            pool.append({"op": "to_pandas", "categories": ["c"]})
+        pool = fixed_ops(spec) + [gen_op(rng, spec) for _ in range(6 if quick else 30)]
         wp = {}
         done = 0
         # writers first: operations that write shared state, preempted right after each write
@@ -530,7 +575,11 @@ def storm_search(ctx, datasets, rng, quick):
                    {"op": "index", "i": 0, "columns": ["i"]}]
         readers = [{"op": "columns"}, {"op": "to_pandas"}, {"op": "statistics"}, {"op": "count", "filters": [["i", ">", 1]]},
                    {"op": "pickle"}, {"op": "head", "n": 4}, {"op": "iter", "columns": ["i", "s"]},
-                   {"op": "to_pandas", "columns": ["s", "i"], "filters": [["i", "<=", spec["offsets"][1]]]}]
+                   {"op": "to_pandas", "columns": ["s", "i"], "filters": [["i", "<=", spec.get("offsets", [0, 1])[1]]]}]
+        if spec["kind"] == "file":
+            fo = fixed_ops(spec)
+            writers = [fo[4], fo[8], fo[9], fo[7], fo[5], fo[2]]
+            readers = [fo[10], fo[0], fo[8], fo[9], fo[11], fo[7], fo[6], fo[1]]
         pairs = [(a, b) for a in writers for b in readers]
         rng.shuffle(pairs)
         # the cheap derived-handle operation against the small readers always
@@ -557,7 +606,7 @@ def stress(ctx, datasets, rng, quick):
             lists[0][0] = gen_op(rng, spec, rng.choice(["slice", "iter", "head", "index"]))
             lists[1][0] = gen_op(rng, spec, "to_pandas")
             # same shape, different row groups: two reads whose outputs have equal size and columns but different content
-            offs = spec["offsets"]
+            offs = spec.get("offsets", [])
             if len(offs) >= 2 and nt >= 2:
                 cut = offs[1]
                 cols = rng.choice([None, ["i", "s"]])
